@@ -340,8 +340,12 @@ def body_nodes(func):
 
 
 def stmts_of(func):
+    """statements of func's body in source order (nested defs and docstrings excluded)"""
     for n in body_nodes(func):
         if isinstance(n, ast.stmt):
+            if isinstance(n, ast.Expr) and isinstance(n.value, ast.Constant) and isinstance(
+                    n.value.value, str):
+                continue
             yield n
 
 
